@@ -369,6 +369,13 @@ func joinAbs(a, b AbsVal, wl int) AbsVal {
 		return a
 	}
 	if a.k != b.k {
+		// a rune length (1..4 bytes that PeekRune found at the position) joined with a look-ahead index
+		if a.k == vRuneLen && b.k == vIdx {
+			return joinIdx(runeLenIdx(a), b, widen)
+		}
+		if a.k == vIdx && b.k == vRuneLen {
+			return joinIdx(a, runeLenIdx(b), widen)
+		}
 		// byte vs small int constant
 		if (a.k == vByte && b.k == vInt) || (a.k == vInt && b.k == vByte) {
 			return AbsVal{k: vByte, set: a.byteSet().or(b.byteSet())}
@@ -1196,6 +1203,10 @@ func (s *State) joinInto(o *State, wl int) bool {
 			ov = o.idxOfInts(ov)
 		case av.k == vInt && ov.k == vIdx:
 			av = s.idxOfIntsAt(av, sE0, sL0)
+		case av.k == vRuneLen && ov.k == vInt && isPlainInt(v.Type()):
+			av, ov = runeLenIdx(av), o.idxOfInts(ov)
+		case av.k == vInt && ov.k == vRuneLen && isPlainInt(v.Type()):
+			av, ov = s.idxOfIntsAt(av, sE0, sL0), runeLenIdx(ov)
 		case av.k == vInt && ov.k == vInt && isPlainInt(v.Type()) && len(av.ints) == 1 && len(ov.ints) == 1 && av.ints[0] != ov.ints[0] &&
 			av.ints[0] >= 0 && ov.ints[0] >= 0 && int(av.ints[0]) <= sE0 && int(ov.ints[0]) <= o.E:
 			// two different look-ahead constants, each in front of its own terminator bound: keep that relation
